@@ -32,3 +32,11 @@ Theorem C04_drain_app : forall f1 flags b1 b2 fl' b1' acts1,
   drain f2 flags (b1 ++ b2) = (let '(st, acts2) := drain f3 fl' (b1' ++ b2) in (st, acts1 ++ acts2)).
 Proof. exact drain_app. Qed.
 Print Assumptions C04_drain_app.
+
+(* the premise of abstracting from time in this property's model: the code it models waits, polls and gives up
+   exactly where the model says (primitive codes in Proofs/W_*.v); re-extracted from the source on every run *)
+Require Import GV.Gen.Consts GV.Proofs.W_server GV.Proofs.W_protocol.
+Theorem C04_time_abstraction : waits_server = (@cons Z 10%Z (@nil Z)) /\ waits_protocol = (@nil Z).
+Proof. exact (conj w_server w_protocol). Qed.
+Check C04_time_abstraction : waits_server = (@cons Z 10%Z (@nil Z)) /\ waits_protocol = (@nil Z).
+Print Assumptions C04_time_abstraction.
